@@ -108,7 +108,24 @@ func genLex(c *hx.Ctx, r *proto.Rand, corpus *lexh.Corpus) []lexCase {
 			add("corpus", 'p', 0, false, s.Data)
 		}
 	}
-	// 3. every truncation of sampled valid sources
+	// 3. every truncation of the hand-written seeds (they reach every branch of the template lexer)
+	for _, s := range corpus.Templates {
+		if !strings.HasPrefix(s.Name, "seed") {
+			continue
+		}
+		for k := 0; k <= len(s.Data); k++ {
+			add("truncation-seed", 't', s.Format, false, s.Data[:k])
+		}
+	}
+	for _, s := range corpus.Programs {
+		if !strings.HasPrefix(s.Name, "pseed") {
+			continue
+		}
+		for k := 0; k <= len(s.Data); k += 1 + k/64 {
+			add("truncation-seed", 'p', 0, false, s.Data[:k])
+		}
+	}
+	// and of sampled valid sources
 	for i := 0; i < c.N(40, 400); i++ {
 		var s lexh.Source
 		if r.Intn(5) == 0 && len(corpus.Programs) > 0 {
@@ -245,6 +262,9 @@ func run(c *hx.Ctx) error {
 	// replay of a recorded failing case: run exactly it
 	if c.Replay != "" {
 		data, err := os.ReadFile(c.Replay)
+		if err != nil { // ./check passes a path relative to /verif and runs the harness in /verif/go
+			data, err = os.ReadFile("../" + c.Replay)
+		}
 		if err != nil {
 			return err
 		}
